@@ -32,6 +32,19 @@ func (e *Encoder) runSites(selector string, st *State, pc string, extra map[stri
 	for k, v := range extra {
 		env.vars[k] = v
 	}
+	// at a Lock/Unlock of a monitored mutex the monitor's counters are visible even when this function does not
+	// hold the lock by dominance (a lock handed over from another goroutine)
+	if e.curCall != nil && len(e.curCall.Args) > 0 {
+		if fa, ok := e.curCall.Args[0].(*ssa.FieldAddr); ok {
+			if mr := e.prog.monitorOfField(fa, false); e.monitorActive(mr) {
+				for i, n := range mr.m.Counters {
+					if _, taken := env.vars[n]; !taken {
+						env.vars[n] = Val{T: types.Typ[types.Uint64], S: e.ctrTotal(st, e.val(fa.X), i)}
+					}
+				}
+			}
+		}
+	}
 	// the ghost counters of the monitors held at this point are visible by name
 	for _, h := range e.held {
 		for i, n := range h.mr.m.Counters {
